@@ -340,7 +340,7 @@ def key_str(k):
 
 def ckey_str(k):
     try:
-        a, b = k
+        a, b = k[0], k[1]
         return '%s|%s' % (','.join(map(str, a)), key_str(b))
     except Exception:
         return 'malformed-key:%r' % (k,)
@@ -609,7 +609,8 @@ def run_compiled_case(case):
                     bad.append((n, 'cached compiled template differs from compiling its key'))
         except Exception as e:
             out.append(core.err_tag(e))
-        klists.append([kidx.get(k, -1) for k in mgr.cache])
+        # the key also carries the generation of the in-stream table entries (constant here: no table-definition message)
+        klists.append([kidx.get((k[0], k[1]), -1) for k in mgr.cache])
     return {'out': out, 'keys': klists, 'bad': bad}
 
 
